@@ -87,7 +87,7 @@ func (c *Cluster) storeHook(path, kind, phase string) error {
 	if c.storePointHook != nil {
 		c.storePointHook(n, kind, phase)
 	}
-	if phase == "pre" && kind == "frame" && c.cfg.PFrameErr > 0 && !c.fairMode && n.running() && c.inner.Bool(c.cfg.PFrameErr) {
+	if phase == "pre" && kind == "frame" && c.cfg.PFrameErr > 0 && !c.fairMode && n.running() && n.state() == _state.Babbling && c.inner.Bool(c.cfg.PFrameErr) {
 		// transient error while the frame of a decided round is written: the
 		// consensus pass gives up before it has touched anything else of that
 		// round, and the next pass finds the frame in the cache and goes on
